@@ -625,7 +625,7 @@ def run(ctx):
     res.extra["not_decided"] = "round-trip isomorphism for all graphs / protocols (dill and pickle byte-level behaviour)"
 
 
-def copy_by_object_protocol(h, roots):
+def copy_by_object_protocol(h, roots, deepcopy_hooks=False):
     """pickle's default object protocol on the abstract heap: a new instance of the same class without __init__, whose state is
     __getstate__() if the class defines it, else the instance dictionary; __setstate__ if defined.  Containers are copied,
     references are mapped to the copies (shared objects stay shared)."""
@@ -662,6 +662,14 @@ def copy_by_object_protocol(h, roots):
     def clone(o):
         if id(o) in clones:
             return clones[id(o)]
+        if deepcopy_hooks:
+            # copy.deepcopy: a class's own __deepcopy__(memo) decides what the copy of its instances is
+            dc, owner_dc = o.cls.lookup("__deepcopy__")
+            if dc is not None and not owner_dc.builtin:
+                from sa.ae import DictV as _D
+                r = I.call(dc, [o, _D()], {})
+                clones[id(o)] = r
+                return r
         n = Obj(o.cls, (o.name or o.cls.name) + "'")
         clones[id(o)] = n
         gs, owner = o.cls.lookup("__getstate__")
